@@ -55,6 +55,7 @@ SIG_HP = "vcfreader:hp-none-crash"
 SIG_CRASH = "stats:crash"
 SIG_SPEC = "stats:counts-spec"
 SIG_ALL = "stats:all-row-block-lengths"
+SIG_PIECES = "stats:block-lengths-overlapping-pieces"
 
 
 def rules_term():
@@ -193,7 +194,10 @@ def classify_batch(name, results):
     fns = {"F4": model_eq_fn(False, True), "PS": model_eq_fn(True, False), "BOTH": model_eq_fn(False, False),
            # everything the property demands holds except the block-length fields of the ALL row
            "ALLLEN": ("fun c => match c with (opts, header, groups, given, out) => "
-                      "match out with ROk o => l1_run_nolen (fst opts) groups given o | RErr _ => false end end")}
+                      "match out with ROk o => l1_run_nolen (fst opts) groups given o | RErr _ => false end end"),
+           # ... except the block-length fields of the per-chromosome rows (and of the ALL row)
+           "ROWLEN": ("fun c => match c with (opts, header, groups, given, out) => "
+                      "match out with ROk o => l1_run_norowlen (fst opts) groups given o | RErr _ => false end end")}
     failing, errors = eval_checks(name, HEADER, fns, [res_term(r) for r in results], shard=60)
     if errors:
         raise RuntimeError("coq evaluation failed: " + errors[0][1])
@@ -203,6 +207,8 @@ def classify_batch(name, results):
             out.append([SIG_HP])
         elif i not in failing["ALLLEN"]:
             out.append([SIG_ALL])
+        elif i not in failing["ROWLEN"]:
+            out.append([SIG_PIECES])
         elif i not in failing["F4"]:
             out.append([SIG_F4])
         elif i not in failing["PS"]:
@@ -259,7 +265,8 @@ def describe(res):
     else:
         names = {v: k for k, v in res["ids"].items()}
         got = "; ".join(f"{names[cid]}: " + ",".join(f"{k}={v}" for k, v in zip(G.INT_FIELDS, d[0])
-                                                     if k in ("variants", "heterozygous_variants", "phased", "unphased", "singletons", "blocks", "bp_per_block_sum"))
+                                                     if k in ("variants", "heterozygous_variants", "phased", "unphased", "singletons", "blocks",
+                                                              "bp_per_block_min", "bp_per_block_max", "bp_per_block_sum"))
                         for cid, d in res["out"]["rows"])
         if res["out"]["all"] is not None:
             got += "; ALL: " + ",".join(f"{k}={v}" for k, v in zip(G.INT_FIELDS, res["out"]["all"][0])
@@ -271,7 +278,7 @@ def describe(res):
             continue
         s = G.o_spec(bool(c.get("only_snvs")), recs)
         exp.append(f"{cname}: variants={s['variants']},heterozygous_variants={s['het']},phased={s['phased']},"
-                   f"unphased={s['unphased']},singletons={s['singletons']},blocks={s['blocks']},covered_span={s['span']} sets={s['bl']}")
+                   f"unphased={s['unphased']},singletons={s['singletons']},blocks={s['blocks']},covered_span={s['span']},piece_lengths={s['pieces']} sets={s['bl']}")
     return f"stats {opts} on\n" + "\n".join(body) + f"\nreported: {got}\nindependent count: " + "; ".join(exp)
 
 
@@ -284,6 +291,9 @@ WHAT = {
     SIG_HP: "VcfReader._extract_HP_phase crashes on an HP value of (None,)",
     SIG_CRASH: "whatshap stats aborted on an input inside the property's domain",
     SIG_SPEC: "reported numbers / block list contradict the independent count over the file",
+    SIG_PIECES: "a chromosome's block lengths (bp_per_block_min / max / sum) are not those of the non-overlapping pieces of its "
+                "phase sets (or their sum exceeds the covered span) while all counts and the block list are right: lengths "
+                "are computed on pieces that overlap or are cut wrongly",
     SIG_ALL: "the ALL row's block-length fields (bp_per_block_sum / min / max) are not the sum / min / max of the "
              "per-chromosome rows (or the sum exceeds the total covered span) while every per-chromosome row, the block "
              "list and all counts are right: the aggregated object does not hold the per-chromosome non-overlapping pieces",
@@ -366,6 +376,12 @@ def run(ctx):
     ctx.extra["grid_stream"] = (f"{len(grid)} cases with 2-3 chromosomes on one coordinate grid: every pair (two phase sets with "
                                 f">= 2 members each over {ctx.n(4, 5)} slots) x (one phase set with >= 2 members among unphased calls), "
                                 "second chromosome aligned and shifted by half a slot, plus random grid layouts")
+    multi = list(G.gen_multi_exhaustive(ctx.n([6, 7], [6, 7, 8]), ctx.n(3, 4)))
+    multi += [G.gen_multi_random(rng) for _ in range(ctx.n(100, 1500))]
+    cases += multi
+    ctx.extra["multi_set_stream"] = (f"{len(multi)} one-chromosome cases: every distribution of {ctx.n('6-7', '6-8')} slots over <= "
+                                     f"{ctx.n(3, 4)} phase sets (up to renaming, >= 2 sets with >= 2 members: all interleavings and "
+                                     "nestings), plus random layouts of 3-4 sets over 6-10 irregularly spaced slots")
     n = ctx.n(250, 3000)
     for i in range(n):
         size = "tiny" if i % 5 == 0 else ("large" if i % 7 == 0 else "small")
@@ -396,7 +412,7 @@ def run(ctx):
             ctx.tally("opt.chr_lengths")
         if t.get("unsorted"):
             ctx.tally("malformed.unsorted")
-        for k in ("grid_exhaustive", "grid_random", "exhaustive"):
+        for k in ("grid_exhaustive", "grid_random", "exhaustive", "multi_exhaustive", "multi_random"):
             if t.get(k):
                 ctx.tally("stream." + k)
         if r["out"] and not isinstance(r["out"], str) and r["out"]["all"] is not None:
